@@ -75,7 +75,7 @@ def _desc(draw, kind=None):
         d["text"] = "\n".join(L.encode(lr, {"padded": True}) for lr in lrs) + "\n"
         if draw(st.booleans()):
             # extra species that take part in no reaction (config: species.required / --extra-species)
-            d["required"] = draw(st.lists(st.sampled_from(["Ne", "Ar", "Mg", "Si", "S", "N", "N2", "Fe", "Na"]), min_size=1, max_size=4, unique=True))
+            d["required"] = draw(st.lists(st.sampled_from(["Ar", "Mg", "Si", "S", "N", "N2", "Fe", "Na"]), min_size=1, max_size=4, unique=True))
         if kind == "umist-mod":
             d["rate_mod"] = {"1": draw(st.sampled_from(["0.0", "1.0e-9 * nH"]))}
         if kind == "kida" and draw(st.booleans()):
@@ -131,7 +131,8 @@ def _desc(draw, kind=None):
             "3,H,H,H2,,>10,NONE,1.0d-17*sqrTgas*T32**(0.5)",
         ]) + "\n"
     if draw(st.integers(0, 3)) == 0 and kind in ("kida", "umist-mod", "naunet"):
-        d["allowed"] = sorted({s for r, p in sel[:-1] for s in r + p})
+        # (the API requires the extra species to be allowed as well)
+        d["allowed"] = sorted({s for r, p in sel[:-1] for s in r + p} | set(d["required"]))
     return d
 
 
